@@ -156,6 +156,16 @@ class Wild:
                 args = args[:-1]
             self.count("apply")
             return [("apply", name, args)]
+        if 0.97 <= c < 0.974:
+            # a macro that no program of this run defines under that name with that arity: must fail, also when an
+            # earlier assembly in the same process defined one
+            self.count("apply-undefined")
+            defined = {n for n, _ in self.macros}
+            cands = [n for n in ("m1", "m2", "m3", "m4") if n not in defined] + ["m7"]
+            return [("apply", r.choice(cands), [self.expr(params) for _ in range(r.randrange(0, 3))])]
+        if 0.974 <= c < 0.98 and depth <= 1:
+            self.count("include_ips")
+            return [("include_ips", "w.ips", r.choice(["0", "0x10", "-0x8", "0x200", self.name()]))]
         if c < 0.985 and depth == 0:
             self.count("incbin")
             nm = f"w{len(self.bins)}.bin"
@@ -205,12 +215,22 @@ class Wild:
         if r.random() < 0.3:
             self.files["winc.s"] = gen_program.source(Wild.sub(self).body(1, n=r.randrange(1, 4)))
             out.insert(r.randrange(1, len(out) + 1), ("include", "winc.s"))
+            if r.random() < 0.4:
+                # the same file a second time (a repeated run of statements kept in one file)
+                out.insert(r.randrange(1, len(out) + 1), ("include", "winc.s"))
         if r.random() < 0.2:
             out.append(("reloc", 0x7E0000 + r.randrange(0x1000)))
             out += self.body(0, n=r.randrange(1, 4))
         if r.random() < 0.3:
             out.append(("org", base + 0x10000 + r.randrange(0x100)))
             out += self.body(0, n=r.randrange(1, 4))
+        recs = b""
+        for _ in range(r.randrange(1, 4)):
+            n = r.randrange(1, 5)
+            recs += r.randrange(0x20, 0x9000).to_bytes(3, "big") + n.to_bytes(2, "big") + bytes(r.randrange(256) for _ in range(n))
+        if r.random() < 0.3:
+            recs += r.randrange(0x20, 0x9000).to_bytes(3, "big") + b"\x00\x00" + r.randrange(1, 6).to_bytes(2, "big") + bytes([r.randrange(256)])
+        self.bins["w.ips"] = b"PATCH" + recs + b"EOF"
         self.files["w.tbl"] = TABLE
         self.files["w2.tbl"] = TABLE2
         return out
